@@ -262,8 +262,11 @@ PROPS = {
                 "result as returned to the caller), a signal through the helper (event as received by a generated "
                 "subscriber), a property through Set / the stub's callback / Get and through the helper's Update / Get; "
                 "values cross to the run as bytes of the documented layout written and read by an independent codec; "
-                "every answer is compared with the model's pipeline and with the value sent; 23 listed packages outside "
-                "the class and the property of type any are run as well (known findings)",
+                "every answer is compared with the model's pipeline and with the value sent; 27 listed packages outside "
+                "the class and the property of type any are run as well (known findings); 300 (3000) sets of method, "
+                "signal and property names (with repetitions, names equal after Title, reserved names) through "
+                "ForEachMethodAndSignal and CleanMethodName against the model's registered names; 18 (70) name sets "
+                "compiled as a package against the model's prediction of clashing method sets",
         "assumptions": [
             "that the generated text compiles is established per generated package by the Go compiler (translation validation by "
             "sampling), not proved: Go's type checker is not modelled",
